@@ -18,7 +18,7 @@ import vf
 PROP = "C09"
 MC = ("INIT Init\nNEXT Next\nVIEW View\nINVARIANT PullSuccessComplete\nINVARIANT LinkAfterLayers\nPROPERTY FailedPullNoLink\nCHECK_DEADLOCK FALSE\n")
 GEN = "INIT Init\nNEXT Next\nCONSTRAINT Emit\nCHECK_DEADLOCK FALSE\n"
-TRACE_CFG = "CONSTANTS U = 4 TrustSize = TRUE CountOnly = FALSE\n" + vf.TRACE_CFG
+TRACE_CFG = "CONSTANTS U = 4 TrustSize = TRUE CountOnly = FALSE StaleMarkers = TRUE\n" + vf.TRACE_CFG
 
 
 def known_pull_finding(script, recs_of_script, findings):
@@ -33,6 +33,15 @@ def known_pull_finding(script, recs_of_script, findings):
             small_ok = r["small"]["s"] == "good" and r["small"]["c"] == "good"
             if (not asked_list and not asked_big and r["lenbytes"] == 16 and small_ok and "sparse-layer-file-trusted-by-size" in findings):
                 return "sparse-layer-file-trusted-by-size"
+            # a marker covers a unit that is not good, the list was asked for (the layer was not trusted by size), nothing is
+            # missing beyond the end of the file, and an earlier attempt had a corrupted chunk body under another plan
+            bad_units = [u + 1 for u, x in enumerate(r["big"]) if x != "good"]
+            covered = all(any(m[0] <= u <= m[1] for m in r["markers"]) for u in bad_units)
+            earlier = [a for a in recs_of_script if a["ev"] == "attempt" and a["i"] < r["i"]]
+            corrupt_before = any(f["f"] == "corrupt1" and f["slot"] == "b" and a["plan"] != r["plan"] for a in earlier for f in a["faults"])
+            if (asked_list and small_ok and bad_units and covered and corrupt_before and all(x != "beyond" for x in r["big"])
+                    and "stale-chunk-marker-after-overlapping-write" in findings):
+                return "stale-chunk-marker-after-overlapping-write"
             return None
     return None
 
@@ -40,7 +49,7 @@ def known_pull_finding(script, recs_of_script, findings):
 def pull_scripts(wd, quick, seed, cov):
     for ts, co in ((True, False), (False, False)):
         cfg = vf.write_cfg(wd, f"MC_RP_{int(ts)}{int(co)}.cfg", {"U": 4, "MaxAttempts": 2 if quick else 3, "MaxFaults": 2, "TrustSize": vf.tla_bool(ts),
-                                                               "CountOnly": vf.tla_bool(co), "Pre": '"none"'}, MC)
+                                                               "CountOnly": vf.tla_bool(co), "StaleMarkers": vf.tla_bool(ts), "Pre": '"none"'}, MC)
         r = vf.tlc("RegistryPull", cfg, wd, timeout=3000)
         if ts:      # the code as it is: the design-level counterexample is expected (known finding), not a verdict
             if "Invariant PullSuccessComplete is violated" not in r["out"] and "Invariant LinkAfterLayers is violated" not in r["out"]:
@@ -49,9 +58,9 @@ def pull_scripts(wd, quick, seed, cov):
             vf.tlc_must_pass(r, "RegistryPull.tla invariants (repaired design)")
             cov["states"] += r["distinct"]
             cov["transitions"] += r["generated"]
-    cfg = vf.write_cfg(wd, "Gen_RP1.cfg", {"U": 4, "MaxAttempts": 1, "MaxFaults": 1, "TrustSize": "TRUE", "CountOnly": "FALSE", "Pre": '"none"'}, GEN)
+    cfg = vf.write_cfg(wd, "Gen_RP1.cfg", {"U": 4, "MaxAttempts": 1, "MaxFaults": 1, "TrustSize": "TRUE", "CountOnly": "FALSE", "StaleMarkers": "TRUE", "Pre": '"none"'}, GEN)
     singles, _ = vf.gen_exhaustive("RegistryPull", cfg, wd)
-    cfg = vf.write_cfg(wd, "Gen_RP2.cfg", {"U": 4, "MaxAttempts": 2, "MaxFaults": 2, "TrustSize": "TRUE", "CountOnly": "FALSE", "Pre": '"none"'}, GEN)
+    cfg = vf.write_cfg(wd, "Gen_RP2.cfg", {"U": 4, "MaxAttempts": 2, "MaxFaults": 2, "TrustSize": "TRUE", "CountOnly": "FALSE", "StaleMarkers": "TRUE", "Pre": '"none"'}, GEN)
     doubles, _ = vf.gen_simulate("RegistryPull", cfg, wd, num=60 if quick else 2500, depth=4, seed=seed)
     singles, doubles = vf.dedupe(singles), vf.dedupe(doubles)
     rnd = random.Random(seed)
